@@ -13,6 +13,20 @@ sc_search_bias is the generated function of Gen/Search.v, sc_log2_lookup_table t
   sc_reduce_custom_dispatch   dispatch_maxlevel (SC_LOG2_32 (mpisize - 1) + 1), dispatch_args
   sc_reduce_max / _min / _sum   reduce_<op>_types: the dispatch table (datatype -> bytes, signed, floating) of the if chain, and the
                          element operation of every integer branch (reduce_<op>_<ctype>)
+  WHOLE BUFFERS (C03 part 2 / 3):
+  sc_reduce_recursive    rec_combine_args (reduce_fn with all four arguments: the two buffers, count, datatype; the copy), rec_recurse_bufs /
+                         rec_a2a_bufs (data, count, datatype handed to the next level), rec_peerdata_bytes (SC_ALLOC (char, datasize)),
+                         rec_msg1..4_buf / _count / _type (buffer, item count and datatype of every Recv / Send); `no_writes`: data, count, datatype, reduce_fn and
+                         the tree position are not assigned anywhere in the function
+  sc_reduce_alltoall     a2a_post_body: the WHOLE body of the posting loop (memcpy of the own contribution; Irecv / Isend with buffer, bytes,
+                         datatype, peer, tag, communicator and request slot; sc_MPI_REQUEST_NULL in the unused slots rrequest[i] / srequest[i]),
+                         a2a_post_cond / _init / _next (the loop header), a2a_request_bytes, a2a_wait_recvs (Waitall (allcount, rrequest)),
+                         a2a_finish (if (doall) Waitall (allcount, srequest); memcpy (data, alldata, datasize); the two frees),
+                         a2a_combine_args (reduce_fn with all four arguments), a2a_send_whole (the Send of a rank that does not collect)
+  sc_reduce_custom_dispatch   dispatch_copy (memcpy (recvbuf, sendbuf, sendcount * sizeof)), dispatch_bufs
+  sc_reduce / sc_allreduce / sc_reduce_custom / sc_allreduce_custom / sc_reduce_dispatch   entry_*: the arguments handed down (target -1 for
+                         the allreduce variants); reduce_op_table: the kernel chosen for each operation
+  Add-on of this file (trusted with the translator): `a = b = v;` at statement level is read as `b = v; a = b;` (unchain).
 coq/C03/ReduceGen.v proves that the hand-written per-rank model (ReduceModel.v) computes exactly these."""
 import os, re
 
@@ -117,6 +131,7 @@ def register(GROUPS, c2g, incs, REPO, HERE, STRUCTS, Group):
         g.add(t, i)
         P2P = ("sc_MPI_Recv", "sc_MPI_Send", "MPI_Recv", "MPI_Send")
         ms = call_stmts(F, P2P)
+        F0, ms0 = F, ms
         kinds = [sl.callee_name(sl.strip(m["inner"][1])).replace("sc_", "") for m in ms]
         if kinds != ["MPI_Recv", "MPI_Send", "MPI_Send", "MPI_Recv"]:
             raise c2g.Unsupported("sc_reduce_recursive: point-to-point calls %s" % kinds)
@@ -126,6 +141,46 @@ def register(GROUPS, c2g, incs, REPO, HERE, STRUCTS, Group):
                                                                sl.strip(n["inner"][0]).get("referencedDecl", {}).get("name") == "datasize")], "rec: datasize")
         t, i = sl.emit_block([ds], "rec_datasize", ["datasize"], R, params=("count", "sc_mpi_sizeof_ret"), want_params=["count", "sc_mpi_sizeof_ret"], **KW)
         g.add(t, i)
+
+        # ---- WHOLE BUFFERS: reduce_fn with all four arguments; what is handed on to the next level; sizes and buffers of the messages
+        def no_writes(cfn, names):
+            """none of the variables is assigned, incremented or has its address taken anywhere in the function"""
+            bad = []
+
+            def f_(n):
+                k_ = n.get("kind")
+                tgt = None
+                if k_ in ("BinaryOperator", "CompoundAssignOperator") and (n.get("opcode") or "").endswith("=") and n.get("opcode") not in ("==", "!=", "<=", ">="):
+                    tgt = sl.strip(n["inner"][0])
+                elif k_ == "UnaryOperator" and n.get("opcode") in ("++", "--", "&"):
+                    tgt = sl.strip(n["inner"][0])
+                if tgt is not None and tgt.get("kind") == "DeclRefExpr" and tgt["referencedDecl"]["name"] in names:
+                    bad.append(tgt["referencedDecl"]["name"])
+            sl.walk(fn(cfn), f_)
+            if bad:
+                raise c2g.Unsupported("%s: %s is modified inside the function" % (cfn, ", ".join(sorted(set(bad)))))
+        no_writes(R, ("data", "count", "datatype", "reduce_fn", "groupsize", "maxlevel", "level", "branch"))
+        WB = ["myrank", "peer", "data", "peerdata", "datasize", "count", "datatype"]
+        t, i = sl.emit_block([lo], "rec_combine_args", ["*ghosts"], R, params=tuple(WB), want_params=WB, effects=("reduce_fn", "memcpy"), effect_called=True, **KW)
+        g.add(t, i)
+        for node_, nm_, cal_ in ((rc, "rec_recurse_bufs", "sc_reduce_recursive"), (a2, "rec_a2a_bufs", "sc_reduce_alltoall")):
+            t, i = sl.emit_block([node_], nm_, ["*ghosts"], R, params=("data", "count", "datatype"), want_params=["data", "count", "datatype"],
+                                 effects=(cal_,), effect_skip_args={cal_: (0, 4, 5, 6, 7, 8, 9)}, **KW)
+            g.add(t, i)
+        pa = call_stmts(F0, ("sc_malloc",))
+        if len(pa) != 1:
+            raise c2g.Unsupported("sc_reduce_recursive: %d allocations" % len(pa))
+        t, i = sl.emit_expr(sl.strip(pa[0]["inner"][1])["inner"][2], "rec_peerdata_bytes", R, params=("datasize",), want_params=["datasize"], **KW)
+        g.add(t, i)
+        for k_, m in enumerate(ms0):
+            call = sl.strip(m["inner"][1])
+            t, i = sl.emit_expr(call["inner"][1], "rec_msg%d_buf" % (k_ + 1), R, params=("data", "peerdata"), want_params=["data", "peerdata"], **KW)
+            g.add(t, i)
+            # the messages carry `count` items of `datatype` (since the repair of F-C03e; before: datasize bytes through an int)
+            t, i = sl.emit_expr(call["inner"][2], "rec_msg%d_count" % (k_ + 1), R, params=("count",), want_params=["count"], **KW)
+            g.add(t, i)
+            t, i = sl.emit_expr(call["inner"][3], "rec_msg%d_type" % (k_ + 1), R, params=("datatype",), want_params=["datatype"], **KW)
+            g.add(t, i)
 
         # ================= sc_reduce_alltoall
         A = "sc_reduce_alltoall"
@@ -207,6 +262,70 @@ def register(GROUPS, c2g, incs, REPO, HERE, STRUCTS, Group):
             t, i = sl.emit_expr(a["inner"][1], nm, A, params=("i", "shift", "datasize"), want_params=["i", "shift", "datasize"], **KW)
             g.add(t, i)
 
+        # ---- the WHOLE body of the posting loop (own contribution, Irecv / Isend with buffers, sizes, request slots, the unused slots),
+        # ---- both Waitall calls, the allocations, the copy of the result and the frees
+        no_writes(A, ("data", "count", "datatype", "reduce_fn", "groupsize", "maxlevel", "level", "branch", "mpicomm"))
+        post = one([n for n in sl.find_nodes(F, lambda n: n.get("kind") == "ForStmt" and sl.refs(n["inner"][2]) == {"i", "allcount"})], "a2a: posting loop")
+        RQ = ("sc_MPI_Request *", "int *")
+        PB = ["maxlevel", "level", "i", "target", "myrank", "groupsize", "doall", "alldata", "data", "datasize", "rrequest", "srequest", "mpicomm",
+              "SC_TAG_REDUCE", "count", "datatype", "sc_MPI_Irecv_ret", "sc_MPI_Isend_ret", "rrequest_i", "srequest_i"]
+        def unchain(n):
+            """`a = b = v;` at statement level is `b = v; a = b;` (the add-on below refuses an assignment inside an expression)"""
+            if not isinstance(n, dict):
+                return n
+            n = dict(n)
+            if "inner" in n:
+                inner = []
+                for c_ in n["inner"]:
+                    c_ = unchain(c_)
+                    if n.get("kind") == "CompoundStmt" and isinstance(c_, dict) and c_.get("kind") == "BinaryOperator" and c_.get("opcode") == "=":
+                        r_ = sl.strip(c_["inner"][1])
+                        if r_.get("kind") == "BinaryOperator" and r_.get("opcode") == "=":
+                            inner.append(r_)
+                            c_ = dict(c_)
+                            c_["inner"] = [c_["inner"][0], r_["inner"][0]]
+                    inner.append(c_)
+                n["inner"] = inner
+            return n
+        t, i = sl.emit_block(list(unchain(post["inner"][-1])["inner"]), "a2a_post_body", ["*ghosts", "rrequest_i", "srequest_i"], A, params=tuple(PB), want_params=PB,
+                             effects=("memcpy", "sc_MPI_Irecv", "sc_MPI_Isend"), effect_called=True, elem_arrays=("rrequest", "srequest"),
+                             elem_ptr_types=RQ, **KW)
+        g.add(t, i)
+        t, i = sl.emit_expr(sl.strip(al[1]["inner"][1])["inner"][2], "a2a_request_bytes", A, params=("allcount",), want_params=["allcount"], **KW)
+        g.add(t, i)
+        wa = [n for n in sl.find_nodes(F, lambda n: n.get("kind") == "CallExpr" and sl.callee_name(n) in ("sc_MPI_Waitall", "MPI_Waitall"))]
+        if len(wa) != 2:
+            raise c2g.Unsupported("sc_reduce_alltoall: %d Waitall calls" % len(wa))
+        wn = sl.callee_name(wa[0])
+        WP = ["allcount", "rrequest", "srequest", "doall", "data", "alldata", "datasize", "request"]
+        t, i = sl.emit_block([wa[0]], "a2a_wait_recvs", ["*ghosts"], A, params=("allcount", "rrequest"), want_params=["allcount", "rrequest"],
+                             effects=(wn,), effect_called=True, effect_skip_args={wn: (2,)}, elem_ptr_types=RQ, **KW)
+        g.add(t, i)
+        # from the second Waitall (inside `if (doall)`) to the end of the collecting branch
+        fin = c2g.select_between(fn(A), src, r"if \(doall\) \{\s*mpiret = sc_MPI_Waitall", r"\}\s*else \{\s*mpiret = sc_MPI_Send", occurrence=0)
+        t, i = sl.emit_block(fin, "a2a_finish", ["*ghosts"], A, params=tuple(WP), want_params=WP + ["sc_MPI_Waitall_ret", "mpiret"],
+                             effects=(wn, "memcpy", "sc_free"), effect_called=True, effect_skip_args={wn: (2,), "sc_free": (0,)}, elem_ptr_types=RQ, **KW)
+        g.add(t, i)
+        # the reduce_fn call of the combination loops with all four arguments
+        CB = ["alldata", "i", "shift", "datasize", "count", "datatype"]
+        t, i = sl.emit_block([rf], "a2a_combine_args", ["*ghosts"], A, params=tuple(CB), want_params=CB, effects=("reduce_fn",), effect_called=True, **KW)
+        g.add(t, i)
+        # a rank that does not collect: one send of the whole buffer to the target
+        SB = ["data", "count", "datatype", "target", "mpicomm", "SC_TAG_REDUCE"]
+        t, i = sl.emit_block([co["inner"][2]], "a2a_send_whole", ["*ghosts"], A, params=tuple(SB), want_params=SB + ["sc_MPI_Send_ret"], effects=("sc_MPI_Send",), effect_called=True, **KW)
+        g.add(t, i)
+        nul = [n for n in sl.find_nodes(post, lambda n: n.get("kind") == "BinaryOperator" and n.get("opcode") == "=" and
+                                        c2g.skip_parens(n["inner"][0]).get("kind") == "ArraySubscriptExpr" and
+                                        not (sl.strip(n["inner"][1]).get("kind") == "BinaryOperator" and sl.strip(n["inner"][1]).get("opcode") == "="))]
+        if len(nul) != 3:
+            raise c2g.Unsupported("sc_reduce_alltoall: %d stores into the request arrays" % len(nul))
+        t, i = sl.emit_expr(nul[0]["inner"][1], "a2a_request_null", A, params=(), want_params=[], **KW)
+        g.add(t, i)
+        cond(post["inner"][2], "a2a_post_cond", A, ["i", "allcount"])
+        t, i = sl.emit_block([post["inner"][0]], "a2a_post_init", ["i"], A, params=(), want_params=[], **KW)
+        g.add(t, i)
+        t, i = sl.emit_block([post["inner"][3]], "a2a_post_next", ["i"], A, params=("i",), want_params=["i"], **KW)
+        g.add(t, i)
         # ================= sc_reduce_custom_dispatch
         D = "sc_reduce_custom_dispatch"
         block(D, r"maxlevel = SC_LOG2_32 \(mpisize - 1\) \+ 1;", r"sc_reduce_recursive \(mpicomm, recvbuf", "dispatch_maxlevel", ["maxlevel"], ["mpisize"])
@@ -214,6 +333,52 @@ def register(GROUPS, c2g, incs, REPO, HERE, STRUCTS, Group):
         t, i = sl.emit_block([rc], "dispatch_args", ["*ghosts"], D, params=("mpisize", "target", "maxlevel", "mpirank"), want_params=["mpisize", "target", "maxlevel", "mpirank"],
                              effects=("sc_reduce_recursive",), effect_skip_args={"sc_reduce_recursive": (0, 1, 2, 3, 9)}, **KW)
         g.add(t, i)
+
+        # the copy of the own contribution into the receive buffer, on which the whole reduction then works; buffers handed to the recursion
+        no_writes(D, ("sendbuf", "recvbuf", "sendcount", "sendtype", "reduce_fn", "target", "mpicomm"))
+        block(D, r"datasize = \(size_t\) sendcount \* sc_mpi_sizeof \(sendtype\);", r"mpiret = sc_MPI_Comm_size", "dispatch_copy", ["*ghosts"],
+              ["sendbuf", "recvbuf", "sendcount", "sc_mpi_sizeof_ret"], effects=("memcpy",), effect_called=True)
+        t, i = sl.emit_block([rc], "dispatch_bufs", ["*ghosts"], D, params=("recvbuf", "sendcount", "sendtype"), want_params=["recvbuf", "sendcount", "sendtype"],
+                             effects=("sc_reduce_recursive",), effect_skip_args={"sc_reduce_recursive": (0, 4, 5, 6, 7, 8, 9)}, **KW)
+        g.add(t, i)
+
+        # ================= the four entry points: target == -1 for the allreduce variants, the caller's target otherwise; buffers, count, datatype unchanged
+        for E_, callee, nargs, skip in (("sc_allreduce_custom", "sc_reduce_custom_dispatch", 7, (4,)), ("sc_reduce_custom", "sc_reduce_custom_dispatch", 7, (4,)),
+                                        ("sc_allreduce", "sc_reduce_dispatch", 7, ()), ("sc_reduce", "sc_reduce_dispatch", 7, ()),
+                                        ("sc_reduce_dispatch", "sc_reduce_custom_dispatch", 7, (4,))):
+            ce = one(sl.find_nodes(fn(E_), lambda n: n.get("kind") == "CallExpr" and sl.callee_name(n) == callee), E_ + ": call of " + callee)
+            ps = [p_ for p_ in ("sendbuf", "recvbuf", "sendcount", "sendtype", "operation", "target", "mpicomm")
+                  if p_ != "operation" or (E_ in ("sc_allreduce", "sc_reduce"))]
+            ps = [p_ for p_ in ps if p_ != "target" or E_ not in ("sc_allreduce_custom", "sc_allreduce")]
+            no_writes(E_, tuple(ps))
+            t, i = sl.emit_block([ce], "entry_%s" % E_[3:], ["*ghosts"], E_, params=tuple(ps), want_params=ps, effects=(callee,), effect_skip_args={callee: skip}, **KW)
+            g.add(t, i)
+
+        # the choice of the kernel by `operation` in sc_reduce_dispatch as a table (operation named in the condition -> function assigned to reduce_fn)
+        OPS, KER = ["sc_MPI_MAX", "sc_MPI_MIN", "sc_MPI_SUM"], ["sc_reduce_max", "sc_reduce_min", "sc_reduce_sum"]
+        body = [c for c in fn("sc_reduce_dispatch")["inner"] if c.get("kind") == "CompoundStmt"][0]
+        node = one([s_ for s_ in body.get("inner", []) if s_.get("kind") == "IfStmt"], "sc_reduce_dispatch: if chain")
+        rows = []
+        while node is not None and node.get("kind") == "IfStmt":
+            cnd, then = node["inner"][0], node["inner"][1]
+            cb, _ = c2g.node_offsets(cnd)
+            tb, _ = c2g.node_offsets(then)
+            names = re.findall(r"sc_MPI_[A-Z_]+", src[cb:tb])
+            if len(names) != 1 or names[0] not in OPS or "operation" not in sl.refs(cnd) or "==" not in src[cb:tb]:
+                raise c2g.Unsupported("sc_reduce_dispatch: operation test `%s`" % src[cb:tb].strip()[:60])
+            asg = one(sl.find_nodes(then, lambda n: n.get("kind") == "BinaryOperator" and n.get("opcode") == "="), "sc_reduce_dispatch: assignment")
+            if sl.strip(asg["inner"][0]).get("referencedDecl", {}).get("name") != "reduce_fn":
+                raise c2g.Unsupported("sc_reduce_dispatch: a branch does not assign reduce_fn")
+            kn = sl.strip(asg["inner"][1]).get("referencedDecl", {}).get("name")
+            if kn not in KER:
+                raise c2g.Unsupported("sc_reduce_dispatch: reduce_fn = %s" % kn)
+            rows.append((OPS.index(names[0]), KER.index(kn)))
+            node = node["inner"][2] if len(node["inner"]) > 2 else None
+        g.add("(* sc_reduce_dispatch: (operation, kernel); operations numbered %s, kernels %s *)\n"
+              "Definition reduce_op_table : list (Z * Z) :=\n  [%s].\n" % (
+                  ", ".join("%d %s" % (k_, n_) for k_, n_ in enumerate(OPS)), ", ".join("%d %s" % (k_, n_) for k_, n_ in enumerate(KER)),
+                  "; ".join("(%d, %d)" % r_ for r_ in rows)),
+              dict(name="reduce_op_table", params=[], fuel=False, table=[list(r_) for r_ in rows]))
 
         # ================= the typed kernels
         tables = {}
